@@ -2,7 +2,8 @@ from checks import both, EX
 
 CHECK = {
     'level': 'exploration',
-    'rule': ('narrow (cstl_string) and wide (cstl_wstring) strings through one generic harness, two distinct string '
+    'rule': ('[long strings] 32 cases: strings of 4095, 4096, 4097, 5000, 65535, 65536, 70000 and 140000 characters (narrow and wide, capacity == size and spare capacity) x ~650 cells each: every insert/append/erase/substr/resize/reserve entry point with positions 0 / inside / size-1 / size / beyond and the overflow count classes (SIZE_MAX-k, SIZE_MAX-size+-1, 2^62, 2^63, 2^32+-k ...); an impossible growth must abort with the string unchanged and WITHOUT a successful allocation smaller than the characters already stored; erase down to 0/1/10 characters keeps the terminator; '
+             'narrow (cstl_string) and wide (cstl_wstring) strings through one generic harness, two distinct string '
              'objects per case. Generators: (1) closure over all pairs of strings of length <= 3 (thorough: <= 4) over a '
              '3-character alphabet (charset 0: a, b, 0xE9 narrow / a, b, 0x1F600 wide; charset 1, used in a share of the '
              'closure scopes, half of the matrix and half of the random histories: a, 0xFF, 0xE9 narrow / WCHAR_MAX, '
